@@ -47,10 +47,10 @@ def build_host(desc):
         })
     for k, xyz in enumerate(desc.get("waters", [])):
         atoms.append(build.water(xyz, 100 + k))
-        if desc.get("hydrogens", False):
+        if desc.get("hydrogens", False) or desc.get("water_h"):
             wat = T.load()[0]["WAT"]
             o = np.array(wat.atoms["O"].xyz)
-            for hn in ("H1", "H2"):
+            for hn in (desc.get("water_h") or ("H1", "H2")):
                 h = np.array(wat.atoms[hn].xyz) - o + np.asarray(xyz, float)
                 atoms.append(build.water(h, 100 + k, name=hn))
         info.append({"kind": "wat", "input": "HOH", "position": None,
